@@ -61,6 +61,21 @@ FIXTURES = [
     ("C11", "seed:C11-r8-1", "E15"),   # rule filed under another rule's key
     ("C04", "seed:C04-r8-1", "J7"),    # argument under another parameter
     ("C19", "seed:C19-r8-4", "X6"),    # producer / consumer exception
+    ("C16", "seed:C16-r10-2", "Y21"),  # a rotation that loses an element
+    ("C03", "seed:C03-r10-1", "Y22"),  # an indexed list sorted in place
+    ("C19", "seed:C19-r10-3", "Y23"),  # conditional expression swallowing an operand
+    ("C07", "seed:C07-r10-2", "Y24"),  # keyword order used as a position
+    ("C10", "seed:C10-r10-1", "Y25"),  # a given argument re-bound
+    ("C06", "seed:C06-r10-3", "D5"),   # a rule asking its strategy the neighbouring question
+    ("C18", "seed:C18-r10-2", "J12"),  # reader narrower than its writers
+    ("C06", "seed:C06-r10-2", "K22"),  # parent pointer taken for a representative
+    ("C05", "seed:C05-r10-3", "K23"),  # random tree marking at queue time
+    ("C11", "seed:C11-r10-3", "V16"),  # injectivity tested on keys
+    ("C14", "seed:C14-r10-3", "W6"),   # pack filtered on the way into the store
+    ("C19", "seed:C19-r10-1", "A13"),  # queueing depends on the database's current knowledge
+    ("C12", "seed:C12-r10-1", "B20"),  # one side's walk stopped by the other side's nodes
+    ("C05", "seed:C05-r10-1", "K15"),  # two-way edge not completed
+    ("C15", "seed:C15-r10-2", "J7"),   # keyword given another parameter
 ]
 
 
